@@ -311,7 +311,13 @@ int parse_instruction_65816(AsmContext *asm_context, char *instr)
       if (IS_TOKEN(token, '#'))
       {
         GET_TOKEN();
-        if (token_type == TOKEN_EOL || token_type == TOKEN_EOF) { break; }
+
+        // A '#' without a value isn't #0.
+        if (token_type == TOKEN_EOL || token_type == TOKEN_EOF)
+        {
+          print_error_unexp(asm_context, token);
+          return -1;
+        }
 
         if (get_num(asm_context, token, &token_type, &num, &size) == -1)
         {
@@ -362,7 +368,13 @@ int parse_instruction_65816(AsmContext *asm_context, char *instr)
       if (IS_TOKEN(token, '#'))
       {
         GET_TOKEN();
-        if (token_type == TOKEN_EOL || token_type == TOKEN_EOF) { break; }
+
+        // A '#' without a value isn't #0.
+        if (token_type == TOKEN_EOL || token_type == TOKEN_EOF)
+        {
+          print_error_unexp(asm_context, token);
+          return -1;
+        }
 
         if (get_num(asm_context, token, &token_type, &num, &size) == -1)
         {
@@ -470,7 +482,13 @@ int parse_instruction_65816(AsmContext *asm_context, char *instr)
       if (IS_TOKEN(token, '#'))
       {
         GET_TOKEN();
-        if (token_type == TOKEN_EOL || token_type == TOKEN_EOF) { break; }
+
+        // A '#' without a value isn't #0.
+        if (token_type == TOKEN_EOL || token_type == TOKEN_EOF)
+        {
+          print_error_unexp(asm_context, token);
+          return -1;
+        }
 
         if (get_num(asm_context, token, &token_type, &num, &size) == -1)
         {
